@@ -32,7 +32,7 @@ OPT_OF = {
     "CONV_2D": "Conv2DOptions", "DEPTHWISE_CONV_2D": "DepthwiseConv2DOptions", "FULLY_CONNECTED": "FullyConnectedOptions",
     "MAX_POOL_2D": "Pool2DOptions", "AVERAGE_POOL_2D": "Pool2DOptions", "ADD": "AddOptions", "SUB": "SubOptions",
     "MUL": "MulOptions", "RESHAPE": "ReshapeOptions", "CONCATENATION": "ConcatenationOptions", "PAD": "PadOptions",
-    "STRIDED_SLICE": "StridedSliceOptions", "LOGISTIC": None, "TANH": None, "RELU": None, "RELU6": None,
+    "STRIDED_SLICE": "StridedSliceOptions", "LOGISTIC": None, "TANH": None, "RELU": None, "RELU6": None, "RELU_N1_TO_1": None,
     "LEAKY_RELU": "LeakyReluOptions", "HARD_SWISH": "HardSwishOptions", "SOFTMAX": "SoftmaxOptions",
     "MEAN": "ReducerOptions", "RESIZE_BILINEAR": "ResizeBilinearOptions",
     "RESIZE_NEAREST_NEIGHBOR": "ResizeNearestNeighborOptions", "QUANTIZE": "QuantizeOptions",
@@ -386,7 +386,7 @@ def unary(net, rng, kind, x, opts=None, out_scale=None, out_zp=None, out_dtype=N
         sc, zp = (1.0 / 128, 0) if od == "int8" else (1.0 / 128, 128) if od == "uint8" else (1.0 / 32768, 0)
     elif kind == "SOFTMAX":
         sc, zp = (1.0 / 256, -128) if od == "int8" else (1.0 / 256, 0) if od == "uint8" else (1.0 / 32768, 0)
-    elif kind in ("RELU", "RELU6"):
+    elif kind in ("RELU", "RELU6", "RELU_N1_TO_1"):
         sc, zp = x.scale, x.zp
     else:
         sc, zp = _rs(rng, 0.01, 0.3), _zp(rng, od)
@@ -564,7 +564,8 @@ def fam_conv_chain(rng, big=False):
 
 SINGLE_KINDS = ["conv", "dw", "fc", "maxpool", "avgpool", "add", "sub", "mul", "logistic", "tanh", "lrelu", "hswish",
                 "softmax", "mean", "resize_bilinear", "resize_nearest", "quantize", "tconv", "reshape", "pad", "pad_bc",
-                "slice", "concat", "minimum", "maximum", "relu", "abs", "add_bcast", "mul_scalar", "transpose", "transpose_c", "conv_head", "prelu"]
+                "slice", "concat", "minimum", "maximum", "relu", "abs", "add_bcast", "mul_scalar", "transpose", "transpose_c", "conv_head", "prelu",
+                "conv_dil", "dw_dil", "avgpool_s4", "split", "mul_max", "relu_chain"]
 
 
 def fam_single_op(rng, kind=None):
@@ -593,6 +594,46 @@ def fam_single_op(rng, kind=None):
         x = _inp(net, rng, [1, 1, 1, rng.choice([8, 16, 17, 32, 64, 100])], dt)
         y = conv2d(net, rng, x, rng.choice([2, 8, 10, 16, 33]), (1, 1), (1, 1), (1, 1), rng.choice(["SAME", "VALID"]),
                    rng.choice(["NONE", "RELU"]))
+    elif kind in ("conv_dil", "dw_dil"):
+        # dilations the hardware has (1, 2) and larger ones that Vela realises by widening the kernel with zeros
+        d = rng.choice([(2, 2), (1, 2), (2, 1), (3, 3), (4, 4), (3, 1), (1, 4), (3, 2), (6, 6)])
+        kk = rng.choice([(3, 3), (2, 2), (3, 1), (1, 3), (2, 3)])
+        hh = max(h, (kk[0] - 1) * d[0] + 2)
+        ww = max(w, (kk[1] - 1) * d[1] + 2)
+        x = _inp(net, rng, [1, hh, ww, c], dt)
+        pad = rng.choice(["SAME", "VALID"])
+        if kind == "conv_dil":
+            y = conv2d(net, rng, x, rng.choice([1, 4, 8, 16]), kk, (1, 1), d, pad, rng.choice(["NONE", "RELU"]))
+        else:
+            y = depthwise(net, rng, x, kk, (1, 1), d, pad)
+    elif kind == "avgpool_s4":
+        k_ = rng.choice([4, 4, 5, 8])
+        hh, ww = k_ * rng.randrange(1, 4), k_ * rng.randrange(1, 4)
+        x = _inp(net, rng, [1, hh, ww, c], dt)
+        y = pool(net, rng, x, "AVERAGE_POOL_2D", (k_, k_), (k_, k_), "VALID")
+    elif kind == "split":
+        axis = rng.choice([3, 3, 2, 1])
+        n_ = rng.choice([2, 2, 3])
+        shp = [1, h, w, c]
+        shp[axis] = n_ * max(1, shp[axis] // n_) if axis != 3 else n_ * rng.choice([4, 8, 16])
+        x = _inp(net, rng, shp, dt)
+        ax = net.tensor([], "int32", None, None, [axis], name="split_axis")
+        part = list(shp)
+        part[axis] = shp[axis] // n_
+        parts = [net.tensor(list(part), dt, x.scale, x.zp) for _ in range(n_)]
+        net.op("SPLIT", [ax, x], parts, dict(NumSplits=n_))
+        outs_ = []
+        for p_ in parts:
+            ch = rng.choice(["relu", "conv", "none", "add"])
+            if ch == "relu":
+                p_ = unary(net, rng, "RELU", p_)
+            elif ch == "conv":
+                p_ = conv2d(net, rng, p_, 4, (1, 1))
+            elif ch == "add":
+                p_ = elementwise(net, rng, "ADD", p_, const_like(net, rng, [1, 1, 1, part[3]], dt))
+            outs_.append(p_)
+        net.output(*outs_)
+        return net
     elif kind in ("softmax",):
         x = _inp(net, rng, [1, rng.choice([2, 10, 64, 100])] if rng.random() < 0.6 else [1, h, w, c], dt)
         y = unary(net, rng, "SOFTMAX", x, dict(Beta=1.0))
@@ -647,6 +688,26 @@ def fam_single_op(rng, kind=None):
             y = unary(net, rng, rng.choice(["RELU", "RELU6"]), x)
         elif kind == "abs":
             y = unary(net, rng, "ABS", x, out_scale=x.scale, out_zp=x.zp)
+        elif kind == "mul_max":
+            # x -> MUL(x, alpha) -> MAXIMUM(x, .): LeakyReLU (alpha > 0) or ABS (alpha = -1) spelled with two operators
+            alpha = rng.choice([0.1, 0.25, 0.5, -1.0, 0.01, 1.5])
+            a_sc = abs(alpha) / 100.0
+            a_t = net.tensor([] if rng.random() < 0.5 else [1, 1, 1, 1], dt, a_sc,
+                             0 if dt != "uint8" else 128, [100 if alpha > 0 else -100] if dt != "uint8" else [228 if alpha > 0 else 28], name="alpha")
+            m = net.tensor([1, h, w, c], dt, x.scale, x.zp)
+            net.op("MUL", [x, a_t] if rng.random() < 0.5 else [a_t, x], [m], dict(FusedActivationFunction=0))
+            y = net.tensor([1, h, w, c], dt, x.scale, x.zp)
+            net.op("MAXIMUM", [x, m] if rng.random() < 0.5 else [m, x], [y], {})
+        elif kind == "relu_chain":
+            # activation operators stacked on one another and on fused activations
+            t_ = x
+            if rng.random() < 0.6:
+                t_ = conv2d(net, rng, t_, c, (1, 1), (1, 1), (1, 1), "SAME", rng.choice(["NONE", "RELU", "RELU6", "RELU_N1_TO_1"]))
+                if rng.random() < 0.7:
+                    t_.scale, t_.zp = rng.choice([0.05, 0.1, 0.02]), (rng.choice([-20, 0, -100]) if dt == "int8" else rng.choice([20, 0, 100]))
+            for _ in range(rng.randrange(1, 4)):
+                t_ = unary(net, rng, rng.choice(["RELU", "RELU6", "RELU_N1_TO_1", "RELU"]), t_)
+            y = t_
         elif kind == "mean":
             y = mean(net, rng, x, (1, 2), keep=rng.random() < 0.7)
         elif kind in ("resize_bilinear", "resize_nearest"):
